@@ -116,6 +116,8 @@ def check_case(ctx, case):
     pa = 100 * np.linalg.norm(X - iso4(K, G)) / np.linalg.norm(X)
     got = float(out0["percent_anisotropy"][0])
     ctx.check("percent_anisotropy_equals_norm_distance", abs(got - pa) <= 1e-6 and -1e-9 <= got <= 100 + 1e-9, case, got=got, exp=float(pa))
+    if case["seed"] % 4 == 0:
+        ctx.fresh_outputs("elasticity_components", dg.elasticity_components, np.array([C0]), case=case)
     ax0 = np.asarray(out0["hexagonal_axis"][0])
     ctx.check("hexagonal_axis_unit", abs(np.linalg.norm(ax0) - 1) <= 1e-9, case)
     for k in KEYS[3:]:
